@@ -134,6 +134,12 @@ func worker(t *testing.T) {
 		s.Seed = rseed
 		s.Prop = prop
 		t0 := time.Now()
+		// "start" lets the driver attribute a process death (runtime fatal error: out of memory under the
+		// worker's address-space limit) to the script that was running; the script travels with it
+		// (kept in a side file that is overwritten for every run, not in the result stream)
+		if cb, err := json.Marshal(outLine{Kind: "start", I: i, Seed: rseed, Engine: e.Name(), Script: s}); err == nil {
+			os.WriteFile(os.Getenv("VERIF_OUT")+".cur", cb, 0644)
+		}
 		res := e.Run(t, s)
 		if n%25 == 3 && res.Infra == "" && res.V == nil {
 			// determinism sample: the same script again must give the same event trace
